@@ -5,8 +5,9 @@ package main
 //
 // For one case = (prior state, block) and for BOTH storage modes the same block is executed by
 //
-//	proposer                CreateBlock + PreRunBlock (header fields filled from the result), then - as the real proposer
-//	                        does with its own parts - CheckBlock of the decoded block, CommitBlock
+//	proposer                transactions arrive as bytes, are decoded and admitted by the proposer's own mempool (AddTx);
+//	                        CreateBlock + PreRunBlock on exactly these objects (header fields filled from the result), then
+//	                        - as the real proposer does with its own parts - CheckBlock of the decoded block, CommitBlock
 //	validator               independent node: parts copied, block decoded, CheckBlock, CommitBlock            (baseline)
 //	after-other-proposal    validator that executed ANOTHER proposal for the same height first (round 0 / round 1)
 //	before-other-proposal   validator that executed this block, then another proposal, then commits this block
@@ -542,7 +543,14 @@ func runBlockCase1(bc blockCase) (res caseResult) {
 			return r
 		}
 		P := add("path:proposer")
-		b, parts, err := P.c.MakeBlock(wireCopies(base))
+		// A correct proposer builds its block from the transaction OBJECTS its own mempool holds: they arrived as bytes,
+		// were decoded and went through the mempool's admission (CheckBasic leaves memo fields in the object that a
+		// freshly decoded copy does not have). PreRunBlock trusts exactly these objects.
+		pobjs := wireCopies(base)
+		for _, tx := range pobjs {
+			P.c.Mempool().AddTx("", tx)
+		}
+		b, parts, err := P.c.MakeBlock(pobjs)
 		res.Executions++
 		honest, executable := admissible, err == nil
 		if err != nil {
@@ -554,7 +562,7 @@ func runBlockCase1(bc blockCase) (res caseResult) {
 			if admissible {
 				res.AdmissibleNotExecutable = true
 			}
-			b, parts, err = P.c.Propose(wireCopies(base), false, 0, minichain.BlockOpts{SkipPreRun: true})
+			b, parts, err = P.c.Propose(pobjs, false, 0, minichain.BlockOpts{SkipPreRun: true})
 			if err != nil {
 				hfail("case %s: Propose(SkipPreRun): %v", bc.name(), err)
 			}
